@@ -41,8 +41,19 @@ PowBases == {N(s, c, e) : s \in {0, 1}, c \in {C2, C3, C15, <<1, 0, 1>>, N17, O3
 PowExps == {0 - 3, 0 - 2, 0 - 1, 0, 1, 2, 3, 5, 10, 34}
 Trans == {N(s, c, e) : s \in {0, 1}, c \in {C1, C2, C15, G17, N34}, e \in {0 - 34, 0 - 17, 0 - 1, 0, 1, 3, 4}} \cup {Zero, N(0, C1, 5), N(0, C1, 6000), N(0, C1, 0 - 6000)}
 
+\* arguments for exp and log alone (DecimalExp): tiny arguments of either sign around 10^-34 (where e^x leaves 1), the
+\* reduction boundary 1/2, the overflow edge, arguments of log next to 1, powers of ten, the ends of the range
+C4 == <<4>>  C9 == <<9>>
+TransFine == {N(s, c, e) : s \in {0, 1}, c \in {C1, C2, C3, C4, C5, C9, <<2, 5>>, <<3, 5>>}, e \in {0 - 36, 0 - 35, 0 - 34, 0 - 33}}
+   \cup {N(s, c, e) : s \in {0, 1}, c \in {C5, <<4, 9>> \o Rep(9, 32), C5 \o Rep(0, 32) \o C1, C1, C3, G34}, e \in {0 - 34, 0 - 33}}
+   \cup {N(s, c, 0) : s \in {0, 1}, c \in {<<1, 4, 1, 4, 9>>, <<1, 4, 1, 3, 7>>, <<7, 0, 9>>, C7}}
+   \cup {N(0, C1 \o Rep(0, 32) \o C1, 0 - 33), N(0, N34, 0 - 34), N(0, C1 \o Rep(0, 15) \o C1, 0 - 16), N(0, N17, 0 - 17),
+         N(0, C1, 1), N(0, C1, 0 - 1), N(0, C1, 6144), N(0, N34, 6111), N(0, C1, 0 - 6143), N(0, C1, 0 - 6176), N(0, G34, 0 - 33), N(0, G34, 0 - 30), N(0, G34, 100)}
+TransDeep == IF Deep THEN {N(s, c, e) : s \in {0, 1}, c \in {G17, G34, T34, C7}, e \in (0 - 40)..(0 - 28)} \cup {N(0, c, e) : c \in {G34, C7, N33}, e \in {0 - 6170, 0 - 3000, 0 - 300, 0 - 36, 0 - 34, 0 - 10, 0, 5, 300, 3000, 6110}}
+             ELSE {}
+
 ASSUME PrintT(<<"OPERANDS", ToJson([core |-> Core, wide |-> Wide, partners |-> Partners, scales |-> Scales,
-                                     powbases |-> PowBases, powexps |-> PowExps, trans |-> Trans])>>)
+                                     powbases |-> PowBases, powexps |-> PowExps, trans |-> Trans, transfine |-> TransFine \cup TransDeep])>>)
 VARIABLE x
 Init == x = 0
 Next == FALSE /\ x' = x
